@@ -7,12 +7,13 @@
     `//`, arithmetic, comparison, `and`/`or`, negation, `if`, `try`, array construction, paths, `reduce`/`foreach`, `label`/`break` - the compiled term with variables as
     positions computes exactly the named semantics.  [compile_defs] extends this to definitions without parameters - recursive, nested, capturing
     the variables and labels in scope - against the table of definitions the compiler fills; [compile_params] adds variable parameters
-    (`def f($a; $b): ...`, arguments evaluated in order and bound on top of the definition's environment).  Filter parameters, objects and
-    destructuring patterns rest on the correspondence of tables and outputs. *)
+    (`def f($a; $b): ...`, arguments evaluated in order and bound on top of the definition's environment), [compile_closures] filter
+    parameters (`def f(g): ...`: the argument is a closure over the caller's environment, run where `g` is called).  Objects, strings,
+    destructuring patterns and native filters rest on the correspondence of tables and outputs. *)
 From Coq Require Import List FunctionalExtensionality.
 From JaqV Require Import Base.Bytes Base.Stream Val.Val Val.Err Core.Syntax Core.Compile Core.Natives Core.Run Proofs.StreamLaws Proofs.MonadLaws
   Proofs.CompileCorrect.
-From JaqV Require Proofs.CompileDefs Proofs.CompileParams.
+From JaqV Require Proofs.CompileDefs Proofs.CompileParams Proofs.CompileClosures.
 Import ListNotations.
 
 (** ** the interpreter's clauses *)
@@ -145,3 +146,26 @@ Theorem compile_params_closed : forall g d nr n t, CompileParams.frag [] [] n t 
     /\ forall fuel v, run d nr (c_defs s') fuel k {| vars := []; labels := 0 |} v = CompileParams.sem d fuel t [] [] 0 v.
 Proof. exact CompileParams.compile_params_closed. Qed.
 Print Assumptions compile_params_closed.
+
+(** ** compiler correctness with filter parameters: closures *)
+(** [CompileClosures.frag]: as above, plus `def f(g; $a; ...): body` with filter parameters and calls `g` of them.  In the named
+    semantics a filter argument is not evaluated at the call: the parameter is bound to the closure (argument term with the
+    environment and definitions of the caller) and a call of the parameter runs it on the current input.  The compiled code
+    binds the compiled argument with the caller's context and reaches it by position.  [agrees defs fuel]: the context holds,
+    position by position, values and labels equal to the named ones and closures that compute the same streams for every
+    smaller fuel ([brel]); [funs_ok]: every name the compiler resolves denotes the corresponding definition or parameter of
+    the named semantics.  For every fuel, context, input: the compiled term computes the named semantics. *)
+Theorem compile_closures : forall g d nr b fs n t, CompileClosures.frag b fs n t ->
+  forall m e s tr, (n <= m)%nat -> CompileClosures.scoped b e -> CompileClosures.fscoped fs e ->
+  exists k trr s', c_term g m e s t tr = ((k, trr), s') /\ CompileClosures.extends s s'
+    /\ forall defs, CompileClosures.covers s s' defs -> forall fuel c rho phi v,
+          CompileClosures.agrees d nr defs fuel e c rho -> CompileClosures.funs_ok d nr defs fuel (e_funs e) rho phi ->
+          run d nr defs fuel k c v = CompileClosures.sem d fuel t rho phi (labels c) v.
+Proof. exact CompileClosures.compile_closures. Qed.
+Print Assumptions compile_closures.
+
+Theorem compile_closures_closed : forall g d nr n t, CompileClosures.frag [] [] n t ->
+  exists k trr s', c_term g n empty_env empty_cst t [] = ((k, trr), s') /\ c_errs s' = 0%nat
+    /\ forall fuel v, run d nr (c_defs s') fuel k {| vars := []; labels := 0 |} v = CompileClosures.sem d fuel t [] [] 0 v.
+Proof. exact CompileClosures.compile_closures_closed. Qed.
+Print Assumptions compile_closures_closed.
